@@ -324,6 +324,83 @@ def run_nested_elem(rng):
     return None
 
 
+def run_epochs(rng):
+    """fit(max_iter = 2..3): every later epoch meets the model the earlier ones left (categories that own one sample each,
+    clusters emptied by re-assignment, a validity index at the edge of its domain) and must be total as well.  Elementary
+    modules over their own data, and the wrappers that run their own epoch loop (CVIART for all three indices,
+    iCVIFuzzyART, TopoART, DualVigilanceART, SimpleARTMAP, FusionART); vigilance from loose to one-sample-per-category."""
+    import artlib
+    from artlib.cvi.iCVIFuzzyArt import iCVIFuzzyART
+    which = rng.choice(["elem", "CVIART", "CVIART", "iCVIFuzzy", "Topo", "DualVig", "SimpleARTMAP", "Fusion"])
+    epochs = rng.choice([2, 3])
+    rho = rng.choice([0.0, 0.3, 0.6, 0.9, 0.95, 1.0])
+    n, d = rng.randrange(3, 10), rng.choice([1, 2])
+    shape = rng.choice(["separated", "grid", "dups"])
+    if shape == "separated":                      # distinct, well separated points: at a high vigilance every sample is alone
+        raw = np.array([[(i + 0.5) / n if j == 0 else ((i * 7) % n + 0.5) / n for j in range(d)] for i in range(n)], dtype=float)
+    else:
+        raw = np.array([[rng.randrange(0, 5) / 4 for _ in range(d)] for _ in range(n)], dtype=float)
+        if shape == "dups":
+            raw = raw[[rng.randrange(max(1, n // 2)) for _ in range(n)]]
+    X = np.hstack([raw, 1.0 - raw])
+    mode = rng.choice(B.MODES)
+    fz = lambda: artlib.FuzzyART(rho, 1e-3, rng.choice([1.0, 0.5]))
+    rep = {"estimator": which, "rho": rho, "max_iter": epochs, "mode": mode, "X": X.tolist()}
+    try:
+        with contextlib.redirect_stdout(io.StringIO()), np.errstate(all="ignore"), C.time_limit(20):
+            y = None
+            if which == "elem":
+                kind = rng.choice(K.KINDS)
+                p = K.gen_params(rng, kind, d)
+                Xk = K.gen_data(rng, kind, n, d)
+                rep.update(kind=kind, params={k: (np.asarray(v).tolist() if isinstance(v, np.ndarray) else v) for k, v in p.items()}, X=Xk.tolist())
+                est = K.make(kind, p)
+                try:
+                    est.validate_data(Xk)
+                except AssertionError:
+                    return None
+                if (kind in ("Fuzzy", "Hyper", "Ellip") and p["rho"] == 0.0 and p["alpha"] == 0.0) or (kind == "ART1" and (p["L"] == 1.0 or not Xk.any(axis=1).all())):
+                    return None          # the standing assumptions of the quantifier
+                est.fit(Xk, max_iter=epochs, match_tracking=mode)
+                est.predict(Xk)
+                return None
+            if which == "CVIART":
+                val = rng.choice([1, 2, 3])
+                rep["validity"] = val
+                est = artlib.CVIART(fz(), val)
+            elif which == "iCVIFuzzy":
+                est = iCVIFuzzyART(rho, 1e-3, 1.0, 1, offline=rng.choice([True, False]))
+            elif which == "Topo":
+                est = artlib.TopoART(fz(), 0.5, rng.choice([2, 5, 50]), rng.choice([1, 2]))
+            elif which == "DualVig":
+                if rho == 0.0:
+                    return None
+                est = artlib.DualVigilanceART(fz(), rho * 0.5)
+            elif which == "SimpleARTMAP":
+                est = artlib.SimpleARTMAP(fz())
+                y = np.array([rng.randrange(3) for _ in range(n)])
+                rep["y"] = y.tolist()
+            else:
+                est = artlib.FusionART([fz(), artlib.FuzzyART(0.5, 1e-3, 1.0)], [0.5, 0.5], [2 * d, 2 * d])
+                X = np.hstack([X, X[::-1]])
+                rep["X"] = X.tolist()
+            if y is not None:
+                est.fit(X, y, max_iter=epochs, match_tracking=mode)
+            else:
+                est.fit(X, max_iter=epochs, match_tracking=mode)
+            est.predict(X)
+    except AssertionError as e:
+        if which == "elem":
+            return None
+        return {"signature": f"{which}/epochs-exception", "text": f"{which}.fit(max_iter={epochs}): AssertionError: {str(e)[:100]}", "replay": rep}
+    except TimeoutError:
+        return {"signature": f"{which}/epochs-hang", "text": f"{which}.fit(max_iter={epochs}) did not return within 20 s", "replay": rep}
+    except Exception as e:
+        name = which if which != "elem" else rep.get("kind", "elem")
+        return {"signature": f"{name}/epochs-exception", "text": f"{name}.fit(max_iter={epochs}): {type(e).__name__}: {str(e)[:100]}", "replay": rep}
+    return None
+
+
 def run_topo_empty(rng):
     """TopoART histories whose last pruning round removes every category (legal: tau = n, nothing reaches phi),
     then predict / fit again / predict: all must be total (predict labels -1 while nothing survives)"""
@@ -381,6 +458,14 @@ def main():
         f, was_empty = run_topo_empty(rng)
         n_empty += 1 if was_empty else 0
         if f:
+            fails.append(f)
+    # several epochs (own PRNG stream)
+    rng_e = C.make_rng(seed, "C04-epochs")
+    n_epochs, seen_e = (300 if tier == "quick" else 3000), set()
+    for _ in range(n_epochs):
+        f = run_epochs(rng_e)
+        if f and f["signature"] not in seen_e:
+            seen_e.add(f["signature"])
             fails.append(f)
     # every hyper-parameter value that validate_params accepts (boundary values, one at a time; own PRNG stream)
     rng_b = C.make_rng(seed, "C04-boundary")
